@@ -1,21 +1,22 @@
 #!/bin/bash
 # usage: tools/seedtest.sh <dir with patch.diff + demo.py> [check ids...]
 # Confirms a seeded change in a scratch worktree (suite still passes, demo fails with / passes without the change), then
-# runs the checks against that worktree (VERIF_REPO).  /repo itself is not touched.  Evidence files written by these runs
-# describe the scratch tree: re-run the checks on /repo before committing evidence.
+# runs the checks against that worktree (VERIF_REPO).  /repo itself is not touched; evidence / replay files of these runs go
+# to a scratch directory (VERIF_OUT) that is removed afterwards.
 d="$(cd "$1" && pwd)"; shift
 ids="$@"
 [ -z "$ids" ] && ids=$(python3 -c "import json;print(' '.join(c['property_id'] for c in json.load(open('/verif/MANIFEST.json'))['checks']))")
 wt=/tmp/st_$$
 /verif/tools/mkwt.sh $wt >/dev/null || exit 2
-trap 'git -C /repo worktree remove --force '$wt' >/dev/null 2>&1; echo "scratch worktree removed"' EXIT
+out=/tmp/st_out_$$; mkdir -p $out/evidence $out/replay
+trap 'git -C /repo worktree remove --force '$wt' >/dev/null 2>&1; rm -rf '$out'; echo "scratch worktree removed"' EXIT
 echo "== demo on unchanged tree: $(cd /tmp && PYTHONPATH=$wt/src timeout 900 /venv/bin/python "$d/demo.py" >/tmp/demo_base_$$.out 2>&1; echo "rc=$?")"
 git -C $wt apply "$d/patch.diff" || { echo "patch does not apply"; exit 2; }
 git -C $wt diff --stat | tail -1
 echo "== suite with the change: $(cd $wt && PYTHONPATH=$wt/src /venv/bin/python -m pytest -q -p no:cacheprovider --timeout=900 2>&1 | tail -1)"
 echo "== demo with the change: $(cd /tmp && PYTHONPATH=$wt/src timeout 900 /venv/bin/python "$d/demo.py" >/tmp/demo_mut_$$.out 2>&1; echo "rc=$?"; tail -2 /tmp/demo_mut_$$.out | cut -c1-200)"
 for c in $ids; do
-  out=$(cd /verif && VERIF_REPO=$wt ./check $c --no-confirm 2>&1); rc=$?
-  echo "== $c rc=$rc $(echo "$out" | grep -c '^VIOLATION') violation line(s)"; echo "$out" | grep "what:" | head -2 | cut -c1-260
+  res=$(cd /verif && VERIF_REPO=$wt VERIF_OUT=$out ./check $c --no-confirm 2>&1); rc=$?
+  echo "== $c rc=$rc $(echo "$res" | grep -c '^VIOLATION') violation line(s)"; echo "$res" | grep "what:" | head -2 | cut -c1-260
 done
 rm -f /tmp/demo_base_$$.out /tmp/demo_mut_$$.out
